@@ -99,7 +99,7 @@ func main() {
 	code := func() (code int) {
 		defer func() {
 			if e := recover(); e != nil {
-				r.Violate("CHECKER", "panic", "-", fmt.Sprintf("checker panicked (treated as failure): %v\n%s", e, debug.Stack()))
+				r.Violate("CHECKER", "panic", "-", fmt.Sprintf("checker panicked (treated as failure): %v | %s", e, trunc(strings.ReplaceAll(string(debug.Stack()), "\n", " "), 900)))
 				code = r.Finish(opts)
 			}
 		}()
